@@ -87,6 +87,13 @@ func genAmbient(t *rapid.T) map[string]string {
 	if cap := rapid.SampledFrom([]string{"", "", "100%", "50%", "10%", "1", "2", "64"}).Draw(t, "ambcpu"); cap != "" {
 		out["cpu-cap"] = fmt.Sprintf("%q", cap)
 	}
+	// IPFIX / sFlow mirroring towards an address nobody listens on (IPv4 or IPv6): what the collector receives,
+	// decodes, publishes and how it stops must not depend on it
+	if mdst := rapid.SampledFrom([]string{"", "", "", "127.0.0.98", "::1"}).Draw(t, "ambmirror"); mdst != "" {
+		out["ipfix-mirror-addr"], out["sflow-mirror-addr"] = fmt.Sprintf("%q", mdst), fmt.Sprintf("%q", mdst)
+		out["ipfix-mirror-port"], out["sflow-mirror-port"] = "9", "9"
+		out["ipfix-mirror-workers"], out["sflow-mirror-workers"] = "2", "2"
+	}
 	// the raw-socket producer's retry limit (0 = no retries, absent = its default)
 	if r := rapid.SampledFrom([]string{"", "", "0", "0", "1", "5", "~drop~"}).Draw(t, "ambretry"); r != "" {
 		out["mq:retry-max"] = r
